@@ -73,6 +73,34 @@ def register(reg):
         ensures=[("weighted_mean", "result == (q1() + S1(length(self._excited_beam_data))) / (1 + S2(length(self._excited_beam_data)))")],
         modifies=[])
 
+    # _populate_cache: one arbitrary iteration of the loop over the CX rates (the shape of _excited_beam_data that _composite_cx_rate relies on):
+    # a ground-state rate is stored as such; an excited rate is appended together with a list that holds, for EVERY plasma species in
+    # composition order and for nothing else, the pair (species, population coefficient of THIS rate's metastable for that species)
+    PC = {"comp()": "as_seq(self._plasma._composition)", "nsp()": "length(comp())", "sp(q)": "typed(comp()[q], 'Species')",
+          "cf(q)": "self._atomic_data.beam_population_rate(donor_element, rate.donor_metastable, sp(q).element, sp(q).charge)",
+          "E()": "self._excited_beam_data", "pd(q)": "as_seq(population_data[q])",
+          "last()": "as_seq(E()[length(E()) - 1])", "lpd(q)": "as_seq(as_seq(last()[1])[q])"}
+    reg.contract(CX, "BeamCXLine._populate_cache", PROP, name='rate-iteration', flags={'loop_body': 0}, ghost=PC,
+        sorts={"rate": "ref:BeamCXPEC!", "population_data": "seq:ref", "donor_element": "ref:Element!", "rates": "seq:ref"},
+        attrs={"_excited_beam_data": "seq:ref"},
+        externals={'.beam_population_rate': {'kind': 'pure', 'result': 'ref:BeamPopulationRate', 'doc': 'atomic data provider: population coefficient'},
+                   'Composition.__iter__': {'kind': 'pure', 'result': 'seq:ref', 'doc': 'iteration order of the composition'}},
+        requires=["not is_none(self._plasma)", "not is_none(self._atomic_data)", "not is_none(self._excited_beam_data)",
+                  "not same(population_data, self._excited_beam_data)",
+                  # the list being built was allocated by the statement just before the loop: it is not the plasma's composition container
+                  "not same(self._excited_beam_data, self._plasma._composition)"],
+        loops={1: dict(index='m', invariant=["0 <= m", "not is_none(population_data)", "length(population_data) == m",
+                                             "not same(population_data, self._excited_beam_data)",
+                                             "forall(q, 0 <= q and q < m, older(population_data[q]) and not alloc0(population_data[q]))", "older(population_data)",
+                                             "forall(q, 0 <= q and q < m, same(pd(q)[0], sp(q)) and same(pd(q)[1], cf(q)))",
+                                             "unchanged('_excited_beam_data:ref') and length(E()) == old(length(E()))",
+                                             "forall(q, 0 <= q and q < length(E()), same(E()[q], old(E()[q])))"])},
+        ensures=[("ground_rate_stored", "implies(rate.donor_metastable == 1, same(self._ground_beam_rate, rate) and length(E()) == old(length(E())))"),
+                 ("excited_rate_appended", "implies(rate.donor_metastable != 1, length(E()) == old(length(E())) + 1 and same(last()[0], rate))"),
+                 ("own_population_list", "implies(rate.donor_metastable != 1, length(as_seq(last()[1])) == nsp() and "
+                  "forall(q, 0 <= q and q < nsp(), same(lpd(q)[0], sp(q)) and same(lpd(q)[1], cf(q))))"),
+                 ("earlier_entries_kept", "forall(q, 0 <= q and q < old(length(E())), same(E()[q], old(E()[q])))")])
+
     # modular view of _beam_population used above: a function of its arguments (purity proved by the frame of the variant below)
     reg.contract(CX, "BeamCXLine._beam_population", PROP,
         sorts={"beam_velocity": "ref:Vector3D!", "population_data": "seq:ref"},
@@ -165,3 +193,24 @@ def _lemmas(ctx):
 
 
 LEMMAS = [_lemmas]
+
+
+def _cache_structure(ctx, eng):
+    """What the arbitrary-iteration contract of _populate_cache assumes about the statements around the loop: the list of excited-state data
+    is a fresh empty list created immediately before the loop over the rates."""
+    import ast
+    from .common import structural
+    fn = ctx['tree'].find_func(CX, "BeamCXLine._populate_cache")
+    out = []
+    loops = [i for i, s in enumerate(fn.body) if isinstance(s, ast.For)]
+    ok = False
+    if loops and ast.unparse(fn.body[loops[0]].iter) == "rates":
+        before = [ast.unparse(s_) for s_ in fn.body[:loops[0]]]
+        js = [j for j, t in enumerate(before) if t == "self._excited_beam_data = []"]
+        ok = bool(js) and not any('_excited_beam_data' in t for t in before[js[-1] + 1:])
+    out.append(structural('BeamCXLine._populate_cache/fresh-list-before-rate-loop', PROP, ok,
+                          'self._excited_beam_data = [] is executed before `for rate in rates` and the list is not touched in between'))
+    return out
+
+
+GENERATORS = [_cache_structure]
